@@ -1,6 +1,7 @@
 package engine
 
 import (
+	"go/token"
 	"strings"
 
 	"golang.org/x/tools/go/ssa"
@@ -32,14 +33,7 @@ func methodName(key string) string {
 // and conversions. Calls into module functions that receive root (or an alias)
 // are reported as "pass→callee#i" so that callers can consult summaries.
 func LocalMutations(fn *ssa.Function, root ssa.Value) []Mutation {
-	alias := func(v ssa.Value) bool {
-		if v == nil {
-			return false
-		}
-		return BackSlice(v, func(x ssa.Value) bool { return x == root }, func(k string) bool {
-			return strings.HasSuffix(k, "Unstructured.UnstructuredContent") || strings.HasSuffix(k, "unstructured.NestedFieldNoCopy")
-		})
-	}
+	alias := func(v ssa.Value) bool { return PointsInto(v, root) }
 	var out []Mutation
 	for _, b := range fn.Blocks {
 		for _, in := range b.Instrs {
@@ -145,4 +139,108 @@ func (p *Program) mutations(fn *ssa.Function, root ssa.Value, busy map[string]bo
 		}
 	}
 	return out
+}
+
+// PointsInto reports whether v is root or a value/address reached from root by
+// field/element selection, dereference, map lookup, range iteration, slicing,
+// conversions, phis, local pointer variables, and the aliasing accessors
+// (UnstructuredContent, NestedFieldNoCopy, append's first operand). Memory that
+// merely CONTAINS root (e.g. a varargs array holding it) is not derived from it.
+func PointsInto(v, root ssa.Value) bool {
+	seen := map[ssa.Value]bool{}
+	var rec func(x ssa.Value, d int) bool
+	rec = func(x ssa.Value, d int) bool {
+		if x == nil || d > 30 || seen[x] {
+			return false
+		}
+		seen[x] = true
+		if x == root {
+			return true
+		}
+		switch y := x.(type) {
+		case *ssa.FieldAddr:
+			return rec(y.X, d+1)
+		case *ssa.Field:
+			return rec(y.X, d+1)
+		case *ssa.IndexAddr:
+			return rec(y.X, d+1)
+		case *ssa.Index:
+			return rec(y.X, d+1)
+		case *ssa.Lookup:
+			return rec(y.X, d+1)
+		case *ssa.Slice:
+			return rec(y.X, d+1)
+		case *ssa.Extract:
+			return rec(y.Tuple, d+1)
+		case *ssa.Next:
+			return rec(y.Iter, d+1)
+		case *ssa.Range:
+			return rec(y.X, d+1)
+		case *ssa.MakeInterface:
+			return rec(y.X, d+1)
+		case *ssa.ChangeType:
+			return rec(y.X, d+1)
+		case *ssa.ChangeInterface:
+			return rec(y.X, d+1)
+		case *ssa.Convert:
+			return rec(y.X, d+1)
+		case *ssa.TypeAssert:
+			return rec(y.X, d+1)
+		case *ssa.Phi:
+			for _, e := range y.Edges {
+				if rec(e, d+1) {
+					return true
+				}
+			}
+		case *ssa.UnOp:
+			if y.Op != token.MUL {
+				return false
+			}
+			switch a := y.X.(type) {
+			case *ssa.Alloc:
+				// a local variable: what was stored in it (directly)
+				if refs := a.Referrers(); refs != nil {
+					for _, u := range *refs {
+						if st, ok := u.(*ssa.Store); ok && st.Addr == a && rec(st.Val, d+1) {
+							return true
+						}
+					}
+				}
+				return false
+			case *ssa.FreeVar:
+				if b := FreeVarBinding(a); b != nil {
+					if b == root {
+						return true
+					}
+					if al, ok := b.(*ssa.Alloc); ok {
+						if refs := al.Referrers(); refs != nil {
+							for _, u := range *refs {
+								if st, ok := u.(*ssa.Store); ok && st.Addr == al && rec(st.Val, d+1) {
+									return true
+								}
+							}
+						}
+						return false
+					}
+					return rec(b, d+1)
+				}
+				return false
+			default:
+				return rec(y.X, d+1)
+			}
+		case *ssa.FreeVar:
+			if b := FreeVarBinding(y); b != nil {
+				return rec(b, d+1)
+			}
+		case *ssa.Call:
+			k := CallKey(y.Common())
+			if k == "builtin.append" || strings.HasSuffix(k, "Unstructured.UnstructuredContent") || strings.HasSuffix(k, "unstructured.NestedFieldNoCopy") {
+				if len(y.Common().Args) > 0 {
+					return rec(y.Common().Args[0], d+1)
+				}
+			}
+		}
+		return false
+	}
+	return rec(v, 0)
 }
